@@ -563,11 +563,46 @@ static void *ext_joiner(void *p)
 }
 
 /* resumer: an external thread that resumes suspended units the moment their BLOCKED state is visible */
+static void late_cancel_locked(int k) /* the gate is held: nobody starts joining / freeing a top-level unit meanwhile */
+{
+    unit *u = &U[k];
+    if (k >= nunits || u->parent >= 0 || u->kind != AK_ULT || u->life != 0 || u->cancel_me)
+        return;
+    if (!u->join_started && u->th != ABT_THREAD_NULL) {
+        u->cancel_me = 1;
+        late_cancels--;
+        vs_log("apiCall cancel U%d", k);
+        ABT_OK(ABT_thread_cancel(u->th));
+        u->cancel_done = 1;
+    }
+}
+
 static void *resumer(void *p)
 {
     (void)p;
     while (!stop_resumer) {
         int did = 0;
+        /* now and then: cancel a top-level ULT that nobody has started to join, at any point of its life; half of the
+         * time one that is suspended right now (the request must survive the suspension) */
+        if (late_cancels > 0 && sc_rnd(30) == 0) {
+            int k = -1;
+            gate_lock();
+            if (sc_rnd(2))
+                for (int i = 0; i < nunits; i++) {
+                    unit *t = &U[i];
+                    ABT_thread_state st;
+                    if (t->parent < 0 && t->kind == AK_ULT && t->named && !t->joined && !t->join_started && t->life == 0 &&
+                        t->resumed_cnt < t->want_resume && t->th != ABT_THREAD_NULL &&
+                        ABT_thread_get_state(t->th, &st) == ABT_SUCCESS && st == ABT_THREAD_STATE_BLOCKED) {
+                        k = i;
+                        break;
+                    }
+                }
+            if (k < 0)
+                k = sc_rnd(nunits > 0 ? nunits : 1);
+            late_cancel_locked(k);
+            gate_unlock();
+        }
         for (int i = 0; i < nunits; i++) {
             unit *u = &U[i];
             if (claim_resume(u)) {
@@ -575,22 +610,6 @@ static void *resumer(void *p)
                 ABT_OK(ABT_thread_resume(u->th));
                 vs_note("apiRet resume U%d", i);
                 did = 1;
-            }
-        }
-        /* now and then: cancel a top-level ULT that nobody has started to join (at any point of its life) */
-        if (late_cancels > 0 && sc_rnd(40) == 0) {
-            int k = sc_rnd(nunits > 0 ? nunits : 1);
-            unit *u = &U[k];
-            if (k < nunits && u->parent < 0 && u->kind == AK_ULT && u->life == 0 && !u->cancel_me) {
-                gate_lock();
-                if (!u->join_started && u->th != ABT_THREAD_NULL) {
-                    u->cancel_me = 1;
-                    late_cancels--;
-                    vs_log("apiCall cancel U%d", k);
-                    ABT_OK(ABT_thread_cancel(u->th));
-                    u->cancel_done = 1;
-                }
-                gate_unlock();
             }
         }
         if (!did)
